@@ -472,16 +472,28 @@ pub fn run(ctx: &Ctx) -> CheckOutput {
 			t.count("streams");
 		}
 	});
+	// ---- (I') exact-size layouts: leading comment block / first document of every ladder size
+	let mut layouts = crate::gen::yaml_layouts(thorough);
+	layouts.extend(crate::gen::sized_streams(F::Json, thorough));
+	layouts.extend(crate::gen::sized_streams(F::Msgpack, thorough));
+	let tl = par_fold(&layouts, Tally::default, |t, _, l| {
+		let src = if l.label.starts_with("yaml") { F::Yaml } else if l.label.starts_with("json") { F::Json } else { F::Msgpack };
+		for to in F::STREAMING {
+			judge_stream(t, &l.bytes, src, &l.docs, to, 0, &l.label);
+		}
+		t.count("streams:size-ladder");
+	});
 	let mut tally = Tally::merge_all(th);
 	tally.merge(Tally::merge_all(ti));
+	tally.merge(Tally::merge_all(tl));
 	tally.merge(cli_part(thorough));
 	tally.states += hists.len() as u64;
 	let req = |k: &str| (k.to_string(), *tally.counters.get(k).unwrap_or(&0));
-	let required = vec![req("histories:len1"), req("histories:len2"), req("histories:len3"), req("streams"), req("cli:file-lists")];
+	let required = vec![req("histories:len1"), req("histories:len2"), req("histories:len3"), req("streams"), req("streams:size-ladder"), req("cli:file-lists")];
 	CheckOutput {
 		level: "model_checking",
 		tally,
-		rule: format!("(H) input alphabet of {} inputs (JSON/YAML/MessagePack streams of 0,1,2,3,4 documents incl. an 8 KiB-class map, several separator styles, slice/reader, named/detected; TOML single documents; one failing input per format); all histories of 1 and 2 calls{} on ONE Translator per streaming target; oracle: output == concatenation of the translations of each document alone by a fresh translator (prefix of it when a call fails), and the harness's own reader of the target recovers exactly those N documents. (I) N-document streams (N up to 1000) and streams whose first document ends at every offset around 8192/16384/24576, x separators x 3 targets x explicit/detected, slice and reader under two default policies and all schedules with <= {} deviation(s) cut at document boundaries +-1. (CLI) every list of 1-3 files over 8 files of mixed formats (single and multi-document, extension-less) through the real binary: stdout == concatenation of the per-document translations.", alpha.len(), if thorough { " and all of 3 calls whose third input is below 300 bytes" } else { " and a fixed third of the 3-call histories" }, d),
+		rule: format!("(H) input alphabet of {} inputs (JSON/YAML/MessagePack streams of 0,1,2,3,4 documents incl. an 8 KiB-class map, several separator styles, slice/reader, named/detected; TOML single documents; one failing input per format); all histories of 1 and 2 calls{} on ONE Translator per streaming target; oracle: output == concatenation of the translations of each document alone by a fresh translator (prefix of it when a call fails), and the harness's own reader of the target recovers exactly those N documents. (I) N-document streams (N up to 1000) and streams whose first document ends at every offset around 8192/16384/24576, x separators x 3 targets x explicit/detected, slice and reader under two default policies and all schedules with <= {} deviation(s) cut at document boundaries +-1. (I') three-document streams in which a leading YAML comment block or the first document (YAML explicit / implicit / implicit and indented, three ways of ending a document; JSON; MessagePack) has every exact size 2^k-1, 2^k, 2^k+1 around the 4 KiB..64 KiB buffer sizes (thorough: 1 KiB..256 KiB and further multiples of 8 KiB). (CLI) every list of 1-3 files over 8 files of mixed formats (single and multi-document, extension-less) through the real binary: stdout == concatenation of the per-document translations.", alpha.len(), if thorough { " and all of 3 calls whose third input is below 300 bytes" } else { " and a fixed third of the 3-call histories" }, d),
 		exhaustive: thorough,
 		bounds: json!({"history_depth": if thorough { 3 } else { 2 }, "alphabet": alpha.len(), "deviations": d}),
 		assumptions: vec!["the reference for a document is xt's own translation of that document alone (the structure run sequentially); absolute fidelity is C01's job".into()],
